@@ -3034,7 +3034,7 @@ func (dsc *dataStoreCommand) sort(sourceKeyName, byPattern, destKeyName string, 
 			vals = make([]sortVal, 0, ss.count)
 			for i := ss.createIterator(); i.next(); {
 				sv := sortVal{
-					data: i.value.(string),
+					data: i.key, // (the members of a set are the keys of its table)
 				}
 				vals = append(vals, sv)
 			}
